@@ -13,7 +13,7 @@ import (
 func init() {
 	register(&Check{
 		ID: "C09", Level: "exploration", QuickSecs: 170, ThoroughSecs: 1500,
-		Rule:        "grammars S <- body ; A <- ... ; B <- ... where body ranges over all expressions (nested choices and sequences allowed) over {'a','b',\"ab\",'a'i,[ab],[^a],[^b],[b]i,.,A,B} x {?,*,+,&,!} up to N nodes (4; thorough adds every 11th 5-node body), A and B over the leaf-rule bodies {'a', \"ab\", [ab], 'a' 'b', 'a'/'b', [^a], x:'a'{act}, 'b'i}; every single label+action decoration of the body; a two-site family (one leaf rule - class with range, class, literal - inlined at two places next to DIFFERENT neighbours the optimizer merges it with, 4 shapes, inputs over {a,b,c}); a same-name label family (labelled leaf rule inlined next to equally named labels of the enclosing rule, 6 shapes); a wide-choice family (5 alternatives: a mergeable pair at every position among unmergeable ones); a recovery family (leaf rules referenced inside and outside recovery operators and throws, 6 shapes x 4 leaf rules; 18 grammars whose rule R is referenced ONLY from a recovery expression - directly, below an action, behind an optional item - and refers on to a rule nothing else uses); a byte literal family (2 or 3 adjacent one-byte literals taken from multi-byte UTF-8 sequences, AllowInvalidUTF8, inputs over those bytes up to 3); a class merge family (C C C? !. with C = X1 / X2 [/ X3] for every ordered pair - thorough: triple - of 14 mergeable terminals: classes with chars, overlapping ranges sharing a bound, duplicates, i, ^, one-rune literals incl. non-ASCII and i, the EMPTY literal, a leaf rule; inputs over {a,b,c}); a rule graph family (EVERY reference graph over the rules S, A, B, D whose bodies are a leaf, a chain \"c\" X or a recursive choice \"a\" X / \"b\": dead rules referring to live ones, shared recursive rules; x the alternate-entrypoint sets {}, {A}, {D}, {A,B}; quick: a systematic third plus every graph with two non-leaf rules); every subset of {A,B} as -alternate-entrypoints and every usable entrypoint at run time; all inputs over {a,b} up to L=3 (4). Unoptimized build vs -optimize-grammar build (real vs real) and both vs the reference: same success, same consumed prefix, same action invocations (id, pos, text, flat label values) in the same order, same flat value (regrouping of action-less structure is invisible, action-made values are not). Non-trivial = the optimizer changed the emitted grammar (expression count differs) and the input is matched or backtracks. Plus the cross family (cross.go, bodies <= 3 nodes, unoptimized vs -optimize-grammar, with and without R as alternate entrypoint); two-site neighbours that bring ranges of their own. Plus a command line family: 5 entrypoint lists written in 3 other ways (the flag repeated per name, mixed, = form) through the real main() must print the file the one comma list gives.",
+		Rule:        "grammars S <- body ; A <- ... ; B <- ... where body ranges over all expressions (nested choices and sequences allowed) over {'a','b',\"ab\",'a'i,[ab],[^a],[^b],[b]i,.,A,B} x {?,*,+,&,!} up to N nodes (4; thorough adds every 11th 5-node body), A and B over the leaf-rule bodies {'a', \"ab\", [ab], 'a' 'b', 'a'/'b', [^a], x:'a'{act}, 'b'i}; every single label+action decoration of the body; a two-site family (one leaf rule - class with range, class, literal - inlined at two places next to DIFFERENT neighbours the optimizer merges it with, 4 shapes, inputs over {a,b,c}); a same-name label family (labelled leaf rule inlined next to equally named labels of the enclosing rule, 6 shapes); a wide-choice family (5 alternatives: a mergeable pair at every position among unmergeable ones); a recovery family (leaf rules referenced inside and outside recovery operators and throws, 6 shapes x 4 leaf rules; 18 grammars whose rule R is referenced ONLY from a recovery expression - directly, below an action, behind an optional item - and refers on to a rule nothing else uses); a byte literal family (2 or 3 adjacent one-byte literals taken from multi-byte UTF-8 sequences, AllowInvalidUTF8, inputs over those bytes up to 3); a class merge family (also with -optimize-basic-latin on both sides; C C C? !. with C = X1 / X2 [/ X3] for every ordered pair - thorough: triple - of 14 mergeable terminals: classes with chars, overlapping ranges sharing a bound, duplicates, i, ^, one-rune literals incl. non-ASCII and i, the EMPTY literal, a leaf rule; inputs over {a,b,c}); a rule graph family (EVERY reference graph over the rules S, A, B, D whose bodies are a leaf, a chain \"c\" X or a recursive choice \"a\" X / \"b\": dead rules referring to live ones, shared recursive rules; x the alternate-entrypoint sets {}, {A}, {D}, {A,B}; quick: a systematic third plus every graph with two non-leaf rules); every subset of {A,B} as -alternate-entrypoints and every usable entrypoint at run time; all inputs over {a,b} up to L=3 (4). Unoptimized build vs -optimize-grammar build (real vs real) and both vs the reference: same success, same consumed prefix, same action invocations (id, pos, text, flat label values) in the same order, same flat value (regrouping of action-less structure is invisible, action-made values are not). Non-trivial = the optimizer changed the emitted grammar (expression count differs) and the input is matched or backtracks. Plus the cross family (cross.go, bodies <= 3 nodes, unoptimized vs -optimize-grammar, with and without R as alternate entrypoint); two-site neighbours that bring ranges of their own. Plus a command line family: 5 entrypoint lists written in 3 other ways (the flag repeated per name, mixed, = form) through the real main() must print the file the one comma list gives.",
 		Assumptions: []string{"E1 loader", "flat value rendering: concatenated matched bytes, action-made values kept"},
 		Run:         runC09,
 	})
@@ -38,6 +38,7 @@ func runC09(c *ShardCtx) {
 	idx := 0
 	allowInvalid := false
 	noShard := false
+	basicLatin := false // (both builds also with -optimize-basic-latin: tables made from classes the OPTIMIZER built)
 	// command line: the entrypoint lists reach the optimizer through main()'s flag handling. Every
 	// way of writing a list of 2 or 3 names - one comma list, the flag repeated per name, a repeated
 	// flag with a comma list, either order - must print the file that the same names give as ONE
@@ -92,8 +93,8 @@ func runC09(c *ShardCtx) {
 		text := peg.Print(g, nil)
 		c.Res.Grammars++
 		for _, alt := range alts {
-			plain := buildOrCount(c, text, core.Gen{AltEntry: alt})
-			opt := buildOrCount(c, text, core.Gen{OptGrammar: true, AltEntry: alt})
+			plain := buildOrCount(c, text, core.Gen{AltEntry: alt, BasicLatin: basicLatin})
+			opt := buildOrCount(c, text, core.Gen{OptGrammar: true, AltEntry: alt, BasicLatin: basicLatin})
 			if plain == nil || opt == nil {
 				if (plain == nil) != (opt == nil) {
 					c.Res.Counters["accepted_only_one_way"]++
@@ -112,7 +113,7 @@ func runC09(c *ShardCtx) {
 					rb := opt.Run(in, &o2, nil)
 					ref := peg.Run(g, in, nil, core.RefOptions(&o1, plain.Flags))
 					c.Res.Evaluations++
-					c.ConfSample(40009, 2, text, core.Gen{OptGrammar: true, AltEntry: alt}, opt, in, o2, nil, rb)
+					c.ConfSample(40009, 2, text, core.Gen{OptGrammar: true, AltEntry: alt, BasicLatin: basicLatin}, opt, in, o2, nil, rb)
 					if ref.Outcome != peg.OResult {
 						c.Res.Skipped++
 						continue
@@ -143,8 +144,8 @@ func runC09(c *ShardCtx) {
 						c.Sample(map[string]any{"grammar": oneLine(text), "alternate_entrypoints": alt, "input": string(in), "flat": rb.Flat, "exprs_before": plain.NExprs, "exprs_after": opt.NExprs})
 					}
 					if len(diffs) > 0 {
-						c.Report(Violation{Desc: diffs[0], Grammar: text, Gen: core.Gen{OptGrammar: true, AltEntry: alt}.String(), Input: string(in), InputHex: hexOf(in), Opts: optsString(&o1), Diffs: diffs}, "",
-							&ConfCase{Text: text, Gen: core.Gen{OptGrammar: true, AltEntry: alt}, HasState: true, HasMemo: true, Runs: []ConfRun{{Input: in, Opts: o2, Obs: rb}}})
+						c.Report(Violation{Desc: diffs[0], Grammar: text, Gen: core.Gen{OptGrammar: true, AltEntry: alt, BasicLatin: basicLatin}.String(), Input: string(in), InputHex: hexOf(in), Opts: optsString(&o1), Diffs: diffs}, "",
+							&ConfCase{Text: text, Gen: core.Gen{OptGrammar: true, AltEntry: alt, BasicLatin: basicLatin}, HasState: true, HasMemo: true, Runs: []ConfRun{{Input: in, Opts: o2, Obs: rb}}})
 					}
 				}
 			}
@@ -287,6 +288,9 @@ func runC09(c *ShardCtx) {
 				return
 			}
 			one(g, [][]string{nil})
+			basicLatin = true
+			one(g, [][]string{nil})
+			basicLatin = false
 		}
 		for _, ga := range ruleGraphFamily(c.Thorough()) {
 			if c.Expired("rule graph family") {
